@@ -211,6 +211,10 @@ def run(ctx):
     from ..run import merge
     fl = F.f3_files(ctx.tier)
     items = [(n, h, ctx.seed, ctx.tier, False) for n, h in fl]
+    if ctx.tier == 'thorough':
+        # the truncation family as well: every file complete, and cut inside its last segment at a few offsets
+        f6 = F.f6_files('thorough')
+        items += [('f6/' + n, h, ctx.seed, 'quick', True) for n, h in f6]
     # incomplete last segment: data file cut inside the last segment while the index is complete
     trunc = [x for x in fl if x[0].startswith(('sq/Int16,TimeStamp', 'sq/Int16,Int16', 'inh/2/app/SAME', 'daqmx', 'special/many', 'special/ts-be',
                                                'sq/TimeStamp,Int16', 'sq/String,Int16', 'sq/Int16,String'))]
